@@ -390,6 +390,7 @@ package regexp2
 
 //@ func (re *Regexp) run(quick bool, textstart int, previousMatchLength int, input []rune, textInfo *matchText) (m *Match, err error)
 //@   props C02 C07 C12
+//@   ensures[pool] re.runnerPool != nil
 //@   requires RegexpWF(re) && RegexpFacts(re) && re.runnerPool != nil
 //@   requires textInfo != nil ==> textInfo.runes == input
 //@   callassume scan: FactsHold(re) && (r.code == re.code || r.code == re.quickCode) ==> FinderFacts(r.code, rt, textstart)
@@ -403,6 +404,7 @@ package regexp2
 
 //@ func (re *Regexp) FindRunesMatch(r []rune) (m *Match, err error)
 //@   props C02 C07 C08
+//@   ensures[pool] re.runnerPool != nil
 //@   requires RegexpWF(re) && RegexpFacts(re) && re.runnerPool != nil
 //@   modifies re.runnerPool, re.replaceCache, objs(Runner), objs(Match), elems(int), elems([]int)
 //@   ensures[errnil] err != nil ==> m == nil
@@ -412,6 +414,7 @@ package regexp2
 
 //@ func (re *Regexp) FindRunesMatchStartingAt(r []rune, startAt int) (m *Match, err error)
 //@   props C02 C07 C08
+//@   ensures[pool] re.runnerPool != nil
 //@   requires RegexpWF(re) && RegexpFacts(re) && re.runnerPool != nil
 //@   modifies re.runnerPool, re.replaceCache, objs(Runner), objs(Match), elems(int), elems([]int)
 //@   ensures[errnil] err != nil ==> m == nil
@@ -432,6 +435,7 @@ package regexp2
 // with \G bound to that end; start positions strictly advance and spans do not overlap.
 //@ func (re *Regexp) FindNextMatch(m *Match) (n *Match, err error)
 //@   props C07 C02
+//@   ensures[pool] re.runnerPool != nil
 //@   requires RegexpWF(re) && RegexpFacts(re) && re.runnerPool != nil
 //@   requires m != nil ==> ReturnedMatch(m, re.code.RightToLeft)
 //@   modifies re.runnerPool, re.replaceCache, objs(Runner), objs(Match), elems(int), elems([]int)
@@ -572,11 +576,12 @@ package regexp2
 //@   requires 0 <= capcount && 2*capcount <= len(caps)
 //@   ensures g.Name == name && g.text == text && len(g.Captures) == capcount
 //@   ensures[last] capcount > 0 ==> g.RuneIndex == caps[2*capcount-2] && g.RuneLength == caps[2*capcount-1]
+//@   ensures[none] capcount == 0 ==> g.RuneIndex == 0 && g.RuneLength == 0
 //@   ensures[all]  forall i int :: 0 <= i && i < capcount ==> g.Captures[i].RuneIndex == caps[2*i] && g.Captures[i].RuneLength == caps[2*i+1] && g.Captures[i].text == text
 //@   loop 0:
 //@     invariant 0 <= i && i <= capcount && len(g.Captures) == capcount && fresh(g.Captures) && off(g.Captures) == 0
 //@     invariant forall k int :: 0 <= k && k < i ==> g.Captures[k].RuneIndex == caps[2*k] && g.Captures[k].RuneLength == caps[2*k+1] && g.Captures[k].text == text
-//@     invariant g.Name == name && g.text == text && (capcount > 0 ==> g.RuneIndex == caps[2*capcount-2] && g.RuneLength == caps[2*capcount-1])
+//@     invariant g.Name == name && g.text == text && (capcount > 0 ==> g.RuneIndex == caps[2*capcount-2] && g.RuneLength == caps[2*capcount-1]) && (capcount == 0 ==> g.RuneIndex == 0 && g.RuneLength == 0)
 //@     decreases capcount - i
 
 //@ func (m *Match) populateOtherGroups()
@@ -589,12 +594,14 @@ package regexp2
 //@   ensures old(m.otherGroups) != nil ==> m.otherGroups == old(m.otherGroups)
 //@   ensures[groups] old(m.otherGroups) == nil ==> fresh(m.otherGroups) && forall i int :: 0 <= i && i < len(m.otherGroups) ==>
 //@             len(m.otherGroups[i].Captures) == m.matchcount[i+1] && m.otherGroups[i].text == m.text &&
-//@             (m.matchcount[i+1] > 0 ==> m.otherGroups[i].RuneIndex == m.matches[i+1][2*m.matchcount[i+1]-2] && m.otherGroups[i].RuneLength == m.matches[i+1][2*m.matchcount[i+1]-1])
+//@             (m.matchcount[i+1] > 0 ==> m.otherGroups[i].RuneIndex == m.matches[i+1][2*m.matchcount[i+1]-2] && m.otherGroups[i].RuneLength == m.matches[i+1][2*m.matchcount[i+1]-1]) &&
+//@             (m.matchcount[i+1] == 0 ==> m.otherGroups[i].RuneIndex == 0 && m.otherGroups[i].RuneLength == 0)
 //@   loop 0:
 //@     invariant 0 <= i && i <= len(m.otherGroups) && len(m.otherGroups) == len(m.matchcount) - 1 && fresh(m.otherGroups) && off(m.otherGroups) == 0 && m.otherGroups != nil
 //@     invariant forall k int :: 0 <= k && k < i ==>
 //@             len(m.otherGroups[k].Captures) == m.matchcount[k+1] && m.otherGroups[k].text == m.text &&
-//@             (m.matchcount[k+1] > 0 ==> m.otherGroups[k].RuneIndex == m.matches[k+1][2*m.matchcount[k+1]-2] && m.otherGroups[k].RuneLength == m.matches[k+1][2*m.matchcount[k+1]-1])
+//@             (m.matchcount[k+1] > 0 ==> m.otherGroups[k].RuneIndex == m.matches[k+1][2*m.matchcount[k+1]-2] && m.otherGroups[k].RuneLength == m.matches[k+1][2*m.matchcount[k+1]-1]) &&
+//@             (m.matchcount[k+1] == 0 ==> m.otherGroups[k].RuneIndex == 0 && m.otherGroups[k].RuneLength == 0)
 //@     decreases len(m.otherGroups) - i
 
 // ---------------------------------------------------------------------------------------------
@@ -780,6 +787,7 @@ package regexp2
 
 //@ func (re *Regexp) FindStringMatch(s string) (m *Match, err error)
 //@   props C02 C08 C07
+//@   ensures[pool] re.runnerPool != nil
 //@   requires RegexpWF(re) && RegexpFacts(re) && OriginFree(re) && re.runnerPool != nil
 //@   callassume run: DecodeOf(input, s) ==> forall o int, p int {Att(re.code, input, o, p)} :: Att(re.code, input, o, p) == AttS(re.code, s, o, p)
 //@   modifies re.runnerPool, re.replaceCache, objs(Runner), objs(Match), elems(int), elems([]int)
@@ -790,6 +798,7 @@ package regexp2
 
 //@ func (re *Regexp) FindStringMatchStartingAt(s string, startAt int) (m *Match, err error)
 //@   props C02 C08 C07
+//@   ensures[pool] re.runnerPool != nil
 //@   requires RegexpWF(re) && RegexpFacts(re) && OriginFree(re) && re.runnerPool != nil
 //@   callassume run: DecodeOf(input, s) ==> forall o int, p int {Att(re.code, input, o, p)} :: Att(re.code, input, o, p) == AttS(re.code, s, o, p)
 //@   modifies re.runnerPool, re.replaceCache, objs(Runner), objs(Match), elems(int), elems([]int)
@@ -834,3 +843,82 @@ package regexp2
 //@   modifies re.runnerPool, re.replaceCache, objs(Runner), objs(Match), elems(int), elems([]int), elems(rune), cells([]rune)
 //@   ensures[errfalse] err != nil ==> !ok
 //@   ensures[found]    err == nil ==> (ok == HasMatchS(re.code, s, NormStart(re.code.RightToLeft, -1, RuneCount(s)), NormStart(re.code.RightToLeft, -1, RuneCount(s))))
+
+// ---------------------------------------------------------------------------------------------
+// C09: Replace / Split building blocks (replace.go, split.go, match.go)
+// ---------------------------------------------------------------------------------------------
+
+// the last capture of group g lies inside the input (C08; what the interpreter is assumed to record: E5)
+//@ spec func LastCapInText(m *Match, g int) bool = m.matchcount[g] > 0 ==> m.matches[g] != nil && 0 <= m.matches[g][2*m.matchcount[g]-2] && 0 <= m.matches[g][2*m.matchcount[g]-1] &&
+//@     m.matches[g][2*m.matchcount[g]-2] + m.matches[g][2*m.matchcount[g]-1] <= len(m.text.runes)
+
+//@ func writeRunes(buf *bytes.Buffer, text []rune, start int, end int)
+//@   props C09
+//@   requires buf != nil && buf.$n >= 0 && (start < end ==> 0 <= start && end <= len(text))
+//@   modifies buf.$n, buf.$out[*]
+//@   ensures[len]    buf.$n == old(buf.$n) + max(end - start, 0)
+//@   ensures[prefix] forall k int :: 0 <= k && k < old(buf.$n) ==> buf.$out[k] == old(buf.$out[k])
+//@   ensures[copy]   forall k int :: 0 <= k && k < end - start ==> buf.$out[old(buf.$n) + k] == text[start + k]
+//@   loop 0:
+//@     invariant start <= i && (start < end ==> i <= end && 0 <= start && end <= len(text)) && (start >= end ==> i == start) && buf.$n == old(buf.$n) + (i - start)
+//@     invariant forall k int :: 0 <= k && k < old(buf.$n) ==> buf.$out[k] == old(buf.$out[k])
+//@     invariant forall k int :: 0 <= k && k < i - start ==> buf.$out[old(buf.$n) + k] == text[start + k]
+//@     decreases end - i
+
+// writes the text of the group's LAST capture (C09: $n / ${name} denote the last capture of the group)
+//@ func (m *Match) groupValueAppendToBuf(groupnum int, buf *bytes.Buffer)
+//@   props C09 C08
+//@   requires m != nil && MatchWF(m) && m.text != nil && buf != nil && buf.$n >= 0 && 0 <= groupnum && groupnum < len(m.matchcount) && LastCapInText(m, groupnum)
+//@   modifies buf.$n, buf.$out[*]
+//@   ensures[len]    buf.$n == old(buf.$n) + ite(m.matchcount[groupnum] > 0, m.matches[groupnum][2*m.matchcount[groupnum]-1], 0)
+//@   ensures[prefix] forall k int :: 0 <= k && k < old(buf.$n) ==> buf.$out[k] == old(buf.$out[k])
+//@   ensures[last]   m.matchcount[groupnum] > 0 ==> forall k int :: 0 <= k && k < m.matches[groupnum][2*m.matchcount[groupnum]-1] ==>
+//@                      buf.$out[old(buf.$n) + k] == m.text.runes[m.matches[groupnum][2*m.matchcount[groupnum]-2] + k]
+//@   loop 0:
+//@     invariant c == m.matchcount[groupnum] && c > 0 && matches == m.matches[groupnum] && last == matches[2*c-2] + matches[2*c-1] && matches[2*c-2] <= index && index <= last && last <= len(m.text.runes)
+//@     invariant buf.$n == old(buf.$n) + (index - matches[2*c-2])
+//@     invariant forall k int :: 0 <= k && k < old(buf.$n) ==> buf.$out[k] == old(buf.$out[k])
+//@     invariant forall k int :: 0 <= k && k < index - matches[2*c-2] ==> buf.$out[old(buf.$n) + k] == m.text.runes[matches[2*c-2] + k]
+//@     decreases last - index
+
+//@ spec func AllLastCapsInText(m *Match) bool = forall g int :: 0 <= g && g < len(m.matchcount) ==> LastCapInText(m, g)
+//@ spec func CaptureOK(c *Capture) bool = c.text != nil && 0 <= c.RuneIndex && 0 <= c.RuneLength && c.RuneIndex + c.RuneLength <= len(c.text.runes)
+
+//@ func (c *Capture) String() (s string)
+//@   props C08 C09
+//@   requires c != nil && CaptureOK(c)
+//@ func (c *Capture) Runes() (r []rune)
+//@   props C08
+//@   requires c != nil && CaptureOK(c)
+//@   ensures len(r) == c.RuneLength && forall k int :: 0 <= k && k < len(r) ==> r[k] == c.text.runes[c.RuneIndex + k]
+
+//@ func (m *Match) Groups() (g []Group)
+//@   props C08 C17 C09
+//@   requires m != nil && MatchWF(m) && m.regex != nil && GroupsWF(m.regex) && m.text != nil && AllLastCapsInText(m)
+//@   requires m.otherGroups != nil ==> len(m.otherGroups) == len(m.matchcount) - 1 && off(m.otherGroups) == 0
+//@   requires forall k int :: 0 <= k && k < len(m.matchcount) ==> m.matches[k] != nil || m.matchcount[k] == 0
+//@   requires[group0] m.Group.text == m.text && 0 <= m.RuneIndex && 0 <= m.RuneLength && m.RuneIndex + m.RuneLength <= len(m.text.runes)
+//@   requires[cached] old(m.otherGroups) != nil ==> forall i int :: 0 <= i && i < len(m.otherGroups) ==> m.otherGroups[i].text == m.text && 0 <= m.otherGroups[i].RuneIndex && 0 <= m.otherGroups[i].RuneLength && m.otherGroups[i].RuneIndex + m.otherGroups[i].RuneLength <= len(m.text.runes)
+//@   modifies m.otherGroups
+//@   ensures len(g) == len(m.matchcount) && fresh(g)
+//@   ensures[text] forall i int :: 0 <= i && i < len(g) ==> g[i].text == m.text
+//@   ensures[zero] g[0].RuneIndex == m.RuneIndex && g[0].RuneLength == m.RuneLength
+//@   ensures[rest] forall i int :: 1 <= i && i < len(g) ==> g[i].RuneIndex == m.otherGroups[i-1].RuneIndex && g[i].RuneLength == m.otherGroups[i-1].RuneLength
+//@   ensures[inside] forall i int :: 0 <= i && i < len(g) ==> 0 <= g[i].RuneIndex && 0 <= g[i].RuneLength && g[i].RuneIndex + g[i].RuneLength <= len(m.text.runes)
+
+// Split: the text between successive matches (C09). The slice bounds hold because matches come in scan order.
+//@ func (re *Regexp) Split(input string, count int) (parts []string, err error)
+//@   props C09 C10
+//@   requires RegexpWF(re) && RegexpFacts(re) && OriginFree(re) && re.runnerPool != nil && GroupsWF(re)
+//@   callassume Groups: MatchWF(m) && m.regex != nil && GroupsWF(m.regex) && AllLastCapsInText(m) && (m.otherGroups != nil ==> len(m.otherGroups) == len(m.matchcount) - 1 && off(m.otherGroups) == 0) && (forall k int :: 0 <= k && k < len(m.matchcount) ==> m.matches[k] != nil || m.matchcount[k] == 0) && m.Group.text == m.text && (m.otherGroups != nil ==> forall i int :: 0 <= i && i < len(m.otherGroups) ==> m.otherGroups[i].text == m.text && 0 <= m.otherGroups[i].RuneIndex && 0 <= m.otherGroups[i].RuneLength && m.otherGroups[i].RuneIndex + m.otherGroups[i].RuneLength <= len(m.text.runes))
+//@   modifies *
+//@   ensures[argerr] count < -1 ==> err != nil
+//@   loop 0:
+//@     invariant m != nil ==> ReturnedMatch(m, re.code.RightToLeft)
+//@     invariant txt != nil ==> (m != nil ==> txt == m.text.runes) && 0 <= priorIndex && priorIndex <= len(txt)
+//@     invariant txt == nil ==> priorIndex == 0
+//@     invariant !re.code.RightToLeft && m != nil && txt != nil ==> priorIndex <= m.RuneIndex
+//@     invariant m != nil ==> err == nil
+//@   loop 1:
+//@     invariant 1 <= i && i <= len(gs) && m != nil && ReturnedMatch(m, re.code.RightToLeft) && txt == m.text.runes && 0 <= priorIndex && (!re.code.RightToLeft ==> priorIndex <= m.RuneIndex)
+//@     invariant forall k int :: 0 <= k && k < len(gs) ==> gs[k].text == m.text && 0 <= gs[k].RuneIndex && 0 <= gs[k].RuneLength && gs[k].RuneIndex + gs[k].RuneLength <= len(m.text.runes)
